@@ -78,6 +78,11 @@ def _summ_add(summ, idx, case, out, kind, want_digest):
 def _run_block(kind, start, count, want_digests):
     """Executed in a forked worker: run cases [start, start+count)."""
     faulthandler.dump_traceback_later(600, exit=True)
+    try:
+        import resource
+        resource.setrlimit(resource.RLIMIT_AS, (3 << 29, 3 << 29))   # runaway allocation -> MemoryError
+    except Exception:
+        pass
     mod = _MOD
     summ = _summ_new()
     try:
